@@ -57,6 +57,8 @@ pub trait Elem: Sized + Clone + Default + std::fmt::Debug + Serialize + for<'de>
     fn walk(&self) -> u32;
     /// what `Debug` prints for the element with this id
     fn debug_of(id: u32) -> String;
+    /// a plain type of the same size but alignment 1 (for maps that may reuse storage)
+    type Bytes: Default + 'static;
 }
 
 // ---------------------------------------------------------------------------
@@ -166,6 +168,7 @@ impl Elem for Tr {
     fn debug_of(id: u32) -> String {
         format!("#{id}")
     }
+    type Bytes = [u8; 16];
 }
 impl std::fmt::Debug for Tr {
     fn fmt(&self, f: &mut std::fmt::Formatter) -> std::fmt::Result {
@@ -236,6 +239,7 @@ impl Elem for Zt {
     fn debug_of(_id: u32) -> String {
         "#".to_string()
     }
+    type Bytes = [u8; 0];
 }
 impl std::fmt::Debug for Zt {
     fn fmt(&self, f: &mut std::fmt::Formatter) -> std::fmt::Result {
@@ -335,6 +339,7 @@ impl Elem for Pl {
     fn debug_of(id: u32) -> String {
         format!("#{id}")
     }
+    type Bytes = [u8; 8];
 }
 impl std::fmt::Debug for Pl {
     fn fmt(&self, f: &mut std::fmt::Formatter) -> std::fmt::Result {
@@ -394,6 +399,7 @@ impl Elem for Al {
     fn debug_of(id: u32) -> String {
         format!("#{id}")
     }
+    type Bytes = [u8; 32];
 }
 impl std::fmt::Debug for Al {
     fn fmt(&self, f: &mut std::fmt::Formatter) -> std::fmt::Result {
@@ -447,6 +453,7 @@ impl Elem for Zp {
     fn debug_of(_id: u32) -> String {
         "#".to_string()
     }
+    type Bytes = [u8; 0];
 }
 impl std::fmt::Debug for Zp {
     fn fmt(&self, f: &mut std::fmt::Formatter) -> std::fmt::Result {
